@@ -71,7 +71,15 @@ def main(tier: str) -> int:
         def jobs1(pool1):
             pids = pool1.map("mc.corpus", "pids_job", [tier])[0]
             run.cov["programs"] = len(pids)
-            return [{"pid": p, "out_dir": d} for p in pids]
+            jobs = [{"pid": p, "out_dir": d} for p in pids]
+            # generated compositions, part 1: mixed-dtype variants (one float argument at a time given as int32) of the
+            # jnp / lax / nn primitive testcases.  quick explores a seed-rotated third, thorough all of them.
+            variants = pool1.map("mc.corpus", "dtype_variant_job", [(tier, seed())])[0]
+            run.cov["mixed_dtype_variants"] = len(variants)
+            if tier == "quick":
+                run.cap("quick: a seed-rotated third of the mixed-dtype variants (all in thorough)")
+            jobs += [{"pid": p, "out_dir": d, "dtype_override": ov} for p, ov in variants]
+            return jobs
 
         def on1(j, r):
             exp[j["pid"]] = r
@@ -81,7 +89,7 @@ def main(tier: str) -> int:
             if r.get("status") != "ok":
                 return None
             run.add("traces_validated_against_impl")
-            return {"pid": j["pid"], "path": r["path"], "tier": tier}
+            return {"pid": j["pid"], "path": r["path"], "tier": tier, "dtype_override": j.get("dtype_override")}
 
         for p, r in two_stage(("mc.runners", "export_job"), jobs1, ("mc.runners", "numeric_job"), mk2,
                               on_stage1=on1, timeout1=240, timeout2=300):
@@ -107,20 +115,21 @@ def main(tier: str) -> int:
                 worst = max(worst, r["worst"])
                 slow.append((r.get("elapsed_s", 0), r.get("prep_s", 0), r["pid"], r["cases"]))
                 if r["in_domain"]:
-                    run.state(r["pid"])
+                    run.state(r["pid"] + str(p.get("dtype_override") or ""))
                 if r["nontrivial"]:
-                    run.nontrivial(r["pid"])
+                    run.nontrivial(r["pid"] + str(p.get("dtype_override") or ""))
                 if r["in_domain"] and len(run.cov["samples"]) < 4:
                     run.sample({"program": r["pid"], "cases": r["cases"], "in_domain": r["in_domain"],
                                 "pointwise": r.get("pointwise"), "worst_ratio": round(r["worst"], 2)})
                 by_class: Dict[str, List[Dict[str, Any]]] = {}
                 for m in r["mismatch"]:
                     by_class.setdefault(m["class"], []).append(m)
+                suffix = "" if not p.get("dtype_override") else "#" + ",".join(f"in{k}:{v}" for k, v in sorted(p["dtype_override"].items()))
                 for cls, ms in by_class.items():
-                    key = f"{r['pid']}|{cls}"
+                    key = f"{r['pid']}{suffix}|{cls}"
                     pats = sorted({"+".join(m["patterns"]) for m in ms})
                     run.violation(key, f"{len(ms)} input pattern combination(s) {pats[:6]}: {ms[0]['what']}",
-                                  {"kind": "corpus", "pid": r["pid"], "tier": tier, "class": cls,
+                                  {"kind": "corpus", "pid": r["pid"], "tier": tier, "class": cls, "dtype_override": p.get("dtype_override"),
                                    "patterns": ms[0]["patterns"], "observed": ms[:5]}, cases=pats)
         run.cov["exported"] = sum(1 for r in exp.values() if r.get("status") == "ok")
         run.cov["export_raised"] = sum(1 for r in exp.values() if r.get("status") == "raise")
@@ -140,11 +149,11 @@ def replay(rep: Dict[str, Any]) -> Dict[str, Any]:
     d = scratch_dir("c01r")
     try:
         with Pool(1, init=("mc.runners", "warm_export")) as pool:
-            e = pool.map("mc.runners", "export_job", [{"pid": rep["pid"], "out_dir": d}])[0]
+            e = pool.map("mc.runners", "export_job", [{"pid": rep["pid"], "out_dir": d, "dtype_override": rep.get("dtype_override")}])[0]
         if e.get("status") != "ok":
             return {"violation": False, "export": e}
         with Pool(1, init=("mc.runners", "warm_oracle")) as pool:
-            r = pool.map("mc.runners", "numeric_job", [{"pid": rep["pid"], "path": e["path"], "tier": rep.get("tier", "quick")}])[0]
+            r = pool.map("mc.runners", "numeric_job", [{"pid": rep["pid"], "path": e["path"], "tier": rep.get("tier", "quick"), "dtype_override": rep.get("dtype_override")}])[0]
         bad = [m for m in r.get("mismatch", []) if m["class"] == rep.get("class")]
         return {"violation": bool(bad), "observed": bad[:3], "summary": {k: r[k] for k in ("cases", "in_domain", "ood")}}
     finally:
